@@ -40,7 +40,7 @@ func (w *vWorld) removalAllowed(n *vNode, o *NodeGroupOptions, nowSec, nowNsec i
 
 // VerifHarness_C01: one scan over an arbitrary cluster state (within the
 // shape); every cloud termination / Node deletion must be justified.
-// shape: [nodes, pods, failure budget, class menu, band (0 below lower,1 mid,2 idle,3 symbolic requests)]
+// shape: [nodes, pods, failure budget, class menu, band (0 below lower,1 mid,2 idle,3 symbolic requests), prior scan (0/1)]
 func VerifHarness_C01() {
 	N, P, F, menu, band := verifShape(0), verifShape(1), verifShape(2), verifShape(3), verifShape(4)
 	w := newWorld(F)
@@ -51,18 +51,36 @@ func VerifHarness_C01() {
 	o.MinNodes, o.MaxNodes = 0, 10
 	g := w.addGroup(o, 0, 10, 0)
 	classes := c01Classes[menu]
+	prior := verifShape(5) == 1
+	type nodeIn struct {
+		class    int
+		cordoned bool
+		age      int64
+	}
+	var ins []nodeIn
 	for i := 0; i < N; i++ {
 		is := strconv.Itoa(i)
 		class := classes[verifChoice("n"+is+".class", len(classes))]
 		cordoned := verifBool("n" + is + ".cordoned")
-		annot := 0
 		taintAge := verifInt("n"+is+".taintAge", w.minTaintAge, 2000)
-		w.addNode(g, class, cordoned, annot, taintAge, int64(5000+100*i), true)
+		ins = append(ins, nodeIn{class, cordoned, taintAge})
+		if prior {
+			// the earlier scan saw this node untainted and schedulable
+			w.addNode(g, tcNone, false, 0, 0, int64(5000+100*i), true)
+		} else {
+			w.addNode(g, class, cordoned, 0, taintAge, int64(5000+100*i), true)
+		}
 	}
+	type podIn struct {
+		node   int
+		daemon bool
+	}
+	var pins []podIn
 	for j := 0; j < P; j++ {
 		js := strconv.Itoa(j)
 		node := verifChoice("p"+js+".node", N+2) - 2
 		daemon := verifChoice("p"+js+".daemon", 2) == 1
+		pins = append(pins, podIn{node, daemon})
 		var cpu int64
 		switch band {
 		case 0:
@@ -74,9 +92,27 @@ func VerifHarness_C01() {
 		default:
 			cpu = verifInt("p"+js+".cpu", 0, 3*w.cpuPerNode)
 		}
-		w.addPod(g, node, daemon, cpu, 1<<20, false)
+		if prior {
+			// in the earlier scan every pod sat on the first node
+			w.addPod(g, 0, false, cpu, 1<<20, false)
+		} else {
+			w.addPod(g, node, daemon, cpu, 1<<20, false)
+		}
 	}
 	w.build()
+	if prior {
+		// an earlier scan of the same controller (state carried in memory: node->pods map,
+		// cached capacity, delta), then the cluster changes to the snapshot under test
+		_ = w.ctrl.RunOnce()
+		for i, n := range w.nodes {
+			w.retaint(n, ins[i].class, ins[i].age)
+			n.obj.Spec.Unschedulable = ins[i].cordoned
+			n.cordoned = ins[i].cordoned
+		}
+		for j, p := range w.pods {
+			w.movePod(p, pins[j].node, pins[j].daemon)
+		}
+	}
 	cs := verifInt("clock.sec", 0, 3)
 	cn := verifInt("clock.nsec", 0, 999999999)
 	verifFreezeClock(w.base+cs, cn)
